@@ -1718,11 +1718,22 @@ impl<'de, 'e> de::Deserializer<'de> for YamlDeserializer<'de, 'e> {
                             let _ = self.ev.next()?; // consume end
                             break;
                         }
-                        Some(_) => {
+                        Some(ev) => {
+                            // An element reached through an alias: its error names both sites,
+                            // as for the elements of any other sequence.
+                            let defined_location = ev.location();
+                            let reference_location = self.ev.reference_location();
                             // Deserialize each element as u8 using our own Deser
                             let b: u8 = <u8 as serde::Deserialize>::deserialize(
                                 YamlDeserializer::new(self.ev, self.cfg),
-                            )?;
+                            )
+                            .map_err(|e| {
+                                attach_alias_locations_if_missing(
+                                    e,
+                                    reference_location,
+                                    defined_location,
+                                )
+                            })?;
                             out.push(b);
                         }
                         None => return Err(Error::eof().with_location(self.ev.last_location())),
@@ -3118,8 +3129,19 @@ impl<'de, 'e> de::Deserializer<'de> for YamlDeserializer<'de, 'e> {
                     ))
                     .map_err(|e: Error| e.with_location(self.ev.last_location()));
                 }
-                let result =
-                    YamlDeserializer::new(self.ev, self.cfg).deserialize_tuple(len, visitor)?;
+                // A payload reached through an alias: its error names both sites, as for a
+                // newtype variant.
+                let defined_location = self
+                    .ev
+                    .peek()?
+                    .map(|ev: &Ev| ev.location())
+                    .unwrap_or_else(|| self.ev.last_location());
+                let reference_location = self.ev.reference_location();
+                let result = YamlDeserializer::new(self.ev, self.cfg)
+                    .deserialize_tuple(len, visitor)
+                    .map_err(|e| {
+                        attach_alias_locations_if_missing(e, reference_location, defined_location)
+                    })?;
                 self.expect_map_end()?;
                 Ok(result)
             }
@@ -3141,8 +3163,17 @@ impl<'de, 'e> de::Deserializer<'de> for YamlDeserializer<'de, 'e> {
                     ))
                     .map_err(|e: Error| e.with_location(self.ev.last_location()));
                 }
+                let defined_location = self
+                    .ev
+                    .peek()?
+                    .map(|ev: &Ev| ev.location())
+                    .unwrap_or_else(|| self.ev.last_location());
+                let reference_location = self.ev.reference_location();
                 let result = YamlDeserializer::new(self.ev, self.cfg)
-                    .deserialize_struct("", fields, visitor)?;
+                    .deserialize_struct("", fields, visitor)
+                    .map_err(|e| {
+                        attach_alias_locations_if_missing(e, reference_location, defined_location)
+                    })?;
                 self.expect_map_end()?;
                 Ok(result)
             }
